@@ -28,6 +28,23 @@ theorem go_verdict (w : World σ) (andMode : Bool) (r i : Nat) (s : σ) (failed 
     generalize (w.evalE i s).1 = b
     cases andMode <;> cases failed <;> cases b <;> simp [fold]
 
+/-- when no component is cut by stop or skip every component is evaluated exactly once, in order, each in the state its predecessor
+    left; what the match leaves is that final state with the errors cleared -/
+theorem go_final (w : World σ) (andMode : Bool) (r i : Nat) (s : σ) (failed : Bool)
+    (hq : ∀ t ∈ states w r i s, w.stopped t = false ∧ w.skip t = false) :
+    (go w andMode r i s failed).2 = w.finish (w.clearErrors (afterAll w r i s)) := by
+  induction r generalizing i s failed with
+  | zero =>
+    have h := hq s (by simp [states])
+    simp [go, afterAll, h.2]
+  | succ r ih =>
+    have h := hq s (by simp [states])
+    have hq' : ∀ t ∈ states w r (i + 1) (w.evalE i s).2, w.stopped t = false ∧ w.skip t = false := fun t ht =>
+      hq t (by simp [states, ht])
+    rw [go, h.1, h.2]
+    simp only [Bool.false_eq_true, if_false, afterAll]
+    exact ih (i + 1) _ _ hq'
+
 /-- a stop seen before component `i` ends the match there: the answer is False and no later component is evaluated -/
 theorem go_stop_cut (w : World σ) (andMode : Bool) (r i : Nat) (s : σ) (failed : Bool) (h : w.stopped s = true) :
     go w andMode (r + 1) i s failed = (false, w.clearErrors s) := by
